@@ -35,6 +35,7 @@ def run(tier, replay=None):
     cfgs = [("MC_Routing_quick.cfg", "c01_quick", 900)]
     if tier == "thorough":
         cfgs.append(("MC_Routing_thorough.cfg", "c01_thorough", 3000))
+        cfgs.append(("MC_Routing_thorough3.cfg", "c01_thorough3", 3000))
     total_cases = 0
     nontrivial = 0
     for cfg, name, to in cfgs:
